@@ -125,3 +125,29 @@ package keeper
 //@   requires #fee-book: forall a, b :: ite(K("collector").GetNetFeeCollectedData(ctx, a, b).1, K("collector").GetNetFeeCollectedData(ctx, a, b).0.NetFeesCollected, 0) >= 0
 //@   ensures #c11-winner-receives-minted-lot: result == nil && had && !statusEsm && A.CurrentBidAmount.Amount > 0 ==> bal(w, md) == old(bal(w, md)) + A.CurrentBidAmount.Amount && supply(md) == old(supply(md)) + A.CurrentBidAmount.Amount
 //@   ensures #c11-payment-to-collector: result == nil && had && !statusEsm ==> bal(am, pd) == old(bal(am, pd)) - A.ExpectedUserToken.Amount && bal(cm, pd) == old(bal(cm, pd)) + A.ExpectedUserToken.Amount
+
+// Begin-block activators of first-generation surplus and debt auctions (C14): the circuit-breaker flag and the emergency
+// status handed in by the caller are the ones stored for the row's own app at the time of the call (checked at every call
+// site), and with either of them set a row that has no running auction is left exactly as it was — no auction is started.
+//@ func (k Keeper) SurplusActivator
+//@   property C14
+//@   modular
+//@   requires #c14-switch-is-current: killSwitchParams.BreakerEnable == k.esm.GetKillSwitchData(ctx, data.AppId).0.BreakerEnable && status == (k.esm.GetESMStatus(ctx, data.AppId).1 && k.esm.GetESMStatus(ctx, data.AppId).0.Status)
+//@   requires assumed #fee-book: forall a, b :: ite(K("collector").GetNetFeeCollectedData(ctx, a, b).1, K("collector").GetNetFeeCollectedData(ctx, a, b).0.NetFeesCollected, 0) >= 0
+//@   ensures #c14-no-start-under-breaker: (killSwitchParams.BreakerEnable || status) && !(data.IsSurplusAuction && data.IsAuctionActive) ==> unchanged()
+
+//@ func (k Keeper) DebtActivator
+//@   property C14
+//@   modular
+//@   requires #c14-switch-is-current: killSwitchParams.BreakerEnable == k.esm.GetKillSwitchData(ctx, data.AppId).0.BreakerEnable && status == (k.esm.GetESMStatus(ctx, data.AppId).1 && k.esm.GetESMStatus(ctx, data.AppId).0.Status)
+//@   requires assumed #fee-book: forall a, b :: ite(K("collector").GetNetFeeCollectedData(ctx, a, b).1, K("collector").GetNetFeeCollectedData(ctx, a, b).0.NetFeesCollected, 0) >= 0
+//@   ensures #c14-no-start-under-breaker: (killSwitchParams.BreakerEnable || status) && !(data.IsDebtAuction && data.IsAuctionActive) ==> unchanged()
+
+// The close/restart sweeps behind the activators are abstracted in the activators' proofs: nothing is claimed about them
+// (result arbitrary, any store they may write havocked) — they run only for rows that already have a running auction.
+//@ func (k Keeper) SurplusAuctionClose
+//@   property C14
+//@   trusted
+//@ func (k Keeper) DebtAuctionClose
+//@   property C14
+//@   trusted
